@@ -172,6 +172,7 @@ def run_check(pm, prop, tier, verbose):
 
     # failed / undecided obligations: try to turn the solver's (candidate) model into a real failing input
     attached = set()
+    known_groups = set()
     for group, items in sorted(failed_groups.items()):
         mod, r, o = items[0]
         status = "refuted" if any(x[2].status == "refuted" for x in items) else "unknown"
@@ -203,11 +204,13 @@ def run_check(pm, prop, tier, verbose):
             kf = known_for_failure(known, prop, witness)
             if kf:
                 known_lines.append((kf["id"], kf["what"]))
+                known_groups.add(group)
                 continue
             violations.append((group, payload, True))
             continue
         if k:
             known_lines.append((k["id"], k["what"]))
+            known_groups.add(group)
             continue
         if status == "refuted":
             violations.append((group, payload, False))
@@ -233,6 +236,10 @@ def run_check(pm, prop, tier, verbose):
 
     # ---------------------------------------------------------------- verdict + evidence
     wall = time.time() - t0
+    # obligations refuted by a RECORDED finding are reported separately (they are decided: the code is wrong there)
+    known_refuted = sorted(g for g in failed_groups if g in known_groups)
+    n_known = sum(len(failed_groups[g]) for g in known_refuted)
+    total -= n_known
     all_proved = total > 0 and discharged == total and not undecided_funcs
     level = getattr(pm, "LEVEL", "proof")
     nat_cases = sum(r.get("cases", 0) for r in native_reports)
@@ -260,7 +267,8 @@ def run_check(pm, prop, tier, verbose):
         "rule": "obligations: one SMT query per (path, goal) generated from the AST of /repo's working tree; native: real function run under the same contract text on an exhaustively enumerated bounded input space (bounded, not proof); distinct_nontrivial counts distinct inputs satisfying the precondition",
         "samples": samples,
         "explanation": getattr(pm, "EXPLANATION", ""),
-        "known_findings_reported": [k for k, _ in known_lines],
+        "known_findings_reported": sorted({k for k, _ in known_lines}),
+        "obligations_refuted_by_recorded_findings": known_refuted,
         "notes": notes,
         "exhaustive": False,
     }
